@@ -69,19 +69,46 @@ def t3(ctx):
     b = ctx.facts.one(r"^memory::Memory::<R, PR, H>::truncate$")
     ev, res = ctx.eval(b, no_inline=(r"to_mmap_options$",))
     ALLOC, SZ = ("param", 1, "allocated"), ("param", 2, "size")
+    def nr(t):
+        """a range kept in a local and used twice: `r.clone()` is r, `r.len()` is end - start"""
+        def f(x):
+            if tag(x) == "call" and len(x[2]) == 1 and tag(x[2][0]) == "ref" and tag(x[2][0][1]) == "tmp" and tag(x[2][0][1][1]) == "struct" and x[2][0][1][1][1].endswith("ops::Range"):
+                r = x[2][0][1][1]
+                if x[1].endswith("as std::clone::Clone>::clone") or x[1].endswith("as core::clone::Clone>::clone"):
+                    return r
+                if x[1].endswith("ExactSizeIterator::len"):
+                    return sub(nr(struct_get(r, "end")), nr(struct_get(r, "start")))
+            return None
+        return term_map(t, f)
+
+    def whole_prefix(v):
+        """v = base[..allocated] or base[0..allocated]"""
+        v = nr(v)
+        if tag(v) == "call" and re.search(r"::index(_mut)?$", v[1]) and len(v[2]) == 2 and tag(v[2][1]) == "struct":
+            r = v[2][1]
+            nm = r[1].split("::")[-1]
+            if nm == "RangeTo":
+                return struct_get(r, "end") == ALLOC
+            if nm == "Range":
+                return struct_get(r, "start") == const(0) and struct_get(r, "end") == ALLOC
+        return False
     cps = [e for e in res.log if e["kind"] == "call" and e.get("effect") == "copy" and not e["chain"]]
-    ok = len(cps) == 1 and cps[0]["count"] == ALLOC
+    ok = len(cps) == 1 and term_eq(nr(cps[0]["count"]), ALLOC)
     if ok:
         news = [e for e in res.log if e["kind"] == "call" and e["callee"].endswith("AlignedVec::new")]
-        ok = len(news) == 1 and news[0]["args"][0] == SZ and "Vec" in show(cps[0]["src"]) and mentions(cps[0]["dst"], struct_get(news[0]["result"], "ptr") if tag(news[0]["result"]) == "struct" else news[0]["result"])
+        def base_only(v):
+            l = as_lin(nr(v))
+            return l.c == 0 and len(l.m) == 1 and list(l.m.values()) == [1]
+        # both pointers are the starts of the buffers (`ptr.add(r.start)` with r.start = 0 folds away; any other offset shifts or shortens the copy)
+        ok = base_only(cps[0]["src"]) and base_only(cps[0]["dst"])
+        ok = ok and len(news) == 1 and news[0]["args"][0] == SZ and "Vec" in show(cps[0]["src"]) and mentions(cps[0]["dst"], struct_get(news[0]["result"], "ptr") if tag(news[0]["result"]) == "struct" else news[0]["result"])
     yield Ob(key_of("C18-T3", b.path, "vec-copy"), ok, "Vec arm: AlignedVec::new(size, align); copy_nonoverlapping(old, new, allocated)", ctx.loc(cps[0]) if cps else b.loc())
     if not ctx.memmap:
         return
     cfs = [e for e in res.log if e["kind"] == "call" and e.get("effect") == "copy_from_slice"]
     ok = len(cfs) == 1
     if ok:
-        d, s = show(cfs[0]["dst"]), show(cfs[0]["src"])
-        ok = "RangeTo{end: allocated}" in d and "RangeTo{end: allocated}" in s
+        ok = whole_prefix(cfs[0]["dst"]) and whole_prefix(cfs[0]["src"])
     yield Ob(key_of("C18-T3", b.path, "anon-copy"), ok, "anonymous arm: new[..allocated].copy_from_slice(&old[..allocated])", ctx.loc(cfs[0]) if cfs else b.loc())
     sl = [e for e in res.log if e["kind"] == "call" and e["callee"].endswith("File::set_len")]
     ok = len(sl) == 1
